@@ -157,6 +157,17 @@ def check(ctx):
                   "jacrhs = ['0.0'] * n_eqns * n_eqns", found=show(v)[:120])
     else:
         ctx.missing("R4", "jacrhs-init", (FILE, m.func.lineno), f"expected one initialisation of jacrhs, found {len(init)}")
+    # a table of rows created by list multiplication (`[[c] * n] * n`) is ONE row object referenced n times: a term added to one
+    # equation's row shows up in every row
+    for n_ in ast.walk(m.func):
+        if isinstance(n_, ast.Assign) and isinstance(n_.value, ast.BinOp) and isinstance(n_.value.op, ast.Mult):
+            for lst in (n_.value.left, n_.value.right):
+                if isinstance(lst, ast.List) and len(lst.elts) == 1 and (isinstance(lst.elts[0], (ast.List, ast.ListComp))
+                                                                        or (isinstance(lst.elts[0], ast.BinOp) and isinstance(lst.elts[0].op, ast.Mult)
+                                                                            and any(isinstance(x, ast.List) for x in (lst.elts[0].left, lst.elts[0].right)))):
+                    ctx.bad("R4", f"rows-aliased:{ast.unparse(n_.targets[0])[:30]}", (FILE, n_.lineno),
+                            f"`{ast.unparse(n_)[:80]}` builds a table whose rows are one and the same list object: every store into one row is seen in all rows",
+                            expected="[[c] * n for _ in range(n)] (distinct rows) or the flat table [c] * n * n", found=ast.unparse(n_.value)[:80])
     _r5(ctx, m)
     _r4_templates(ctx)
 
@@ -632,6 +643,15 @@ def _r5(ctx, m):
 
 T = FILE
 MUTANTS = [
+    {"name": "jacobian-rows-created-by-list-multiplication", "edits": [
+        {"file": T, "old": "from pathlib import Path\n", "new": "from itertools import chain\nfrom pathlib import Path\n"},
+        {"file": T, "old": '        jacrhs = ["0.0"] * n_eqns * n_eqns\n', "new": '        jacrows = [["0.0"] * n_eqns] * n_eqns\n'},
+        {"file": T, "old": "jacrhs[specidx * n_eqns + ri] += term", "new": "jacrows[specidx][ri] += term", "count": 2},
+        {"file": T, "old": "jacrhs[sidx * n_eqns + didx] += term", "new": "jacrows[sidx][didx] += term"},
+        {"file": T, "old": "jacrhs[n_spec * n_eqns + ri] += term", "new": "jacrows[n_spec][ri] += term", "count": 2},
+        {"file": T, "old": '            for si in range(n_spec):\n                jacrhs[n_spec * n_eqns + si] = (\n                    "0.0"\n                    if jacrhs[n_spec * n_eqns + si] == "0.0"\n                    else f"(gamma - 1.0) * ( {jacrhs[n_spec * n_eqns + si]} ) / kerg / npar"\n                )\n',
+         "new": '            thermalrow = jacrows[n_spec]\n            for si in range(n_spec):\n                if thermalrow[si] != "0.0":\n                    thermalrow[si] = f"(gamma - 1.0) * ( {thermalrow[si]} ) / kerg / npar"\n'},
+        {"file": T, "old": '        fex = [f"{l} = {r};" for l, r in zip(lhs, rhs)]\n', "new": '        jacrhs = list(chain.from_iterable(jacrows))\n        fex = [f"{l} = {r};" for l, r in zip(lhs, rhs)]\n'}], "rules": ["R4"]},
     {"name": "dict-keyed-jacobian-modifier-term-transposed", "edits": [
         {"file": T, "old": '        jacrhs = ["0.0"] * n_eqns * n_eqns\n', "new": '        jacterms = {}\n'},
         {"file": T, "old": "jacrhs[specidx * n_eqns + ri] += term", "new": 'jacterms[(specidx, ri)] = jacterms.get((specidx, ri), "0.0") + term', "count": 2},
@@ -680,6 +700,15 @@ MUTANTS = [
     {"name": "skip-catalyst-jac", "file": T, "old": "            for specidx in pspecidx:\n                for ri in rspecidx:\n                    rsymcopy = rsym.copy()", "new": "            for specidx in pspecidx:\n                if specidx in rspecidx:\n                    continue\n                for ri in rspecidx:\n                    rsymcopy = rsym.copy()", "rules": ["R1"]},
 ]
 BENIGN = [
+    {"name": "jacobian-kept-as-a-list-of-rows-flattened-once", "edits": [
+        {"file": T, "old": "from pathlib import Path\n", "new": "from itertools import chain\nfrom pathlib import Path\n"},
+        {"file": T, "old": '        jacrhs = ["0.0"] * n_eqns * n_eqns\n', "new": '        jacrows = [["0.0"] * n_eqns for _ in range(n_eqns)]\n'},
+        {"file": T, "old": "jacrhs[specidx * n_eqns + ri] += term", "new": "jacrows[specidx][ri] += term", "count": 2},
+        {"file": T, "old": "jacrhs[sidx * n_eqns + didx] += term", "new": "jacrows[sidx][didx] += term"},
+        {"file": T, "old": "jacrhs[n_spec * n_eqns + ri] += term", "new": "jacrows[n_spec][ri] += term", "count": 2},
+        {"file": T, "old": '            for si in range(n_spec):\n                jacrhs[n_spec * n_eqns + si] = (\n                    "0.0"\n                    if jacrhs[n_spec * n_eqns + si] == "0.0"\n                    else f"(gamma - 1.0) * ( {jacrhs[n_spec * n_eqns + si]} ) / kerg / npar"\n                )\n',
+         "new": '            thermalrow = jacrows[n_spec]\n            for si in range(n_spec):\n                if thermalrow[si] != "0.0":\n                    thermalrow[si] = f"(gamma - 1.0) * ( {thermalrow[si]} ) / kerg / npar"\n'},
+        {"file": T, "old": '        fex = [f"{l} = {r};" for l, r in zip(lhs, rhs)]\n', "new": '        jacrhs = list(chain.from_iterable(jacrows))\n        fex = [f"{l} = {r};" for l, r in zip(lhs, rhs)]\n'}]},
     {"name": "jacobian-terms-kept-in-a-dict-keyed-by-row-and-column", "edits": [
         {"file": T, "old": '        jacrhs = ["0.0"] * n_eqns * n_eqns\n', "new": '        jacterms = {}\n'},
         {"file": T, "old": "jacrhs[specidx * n_eqns + ri] += term", "new": 'jacterms[(specidx, ri)] = jacterms.get((specidx, ri), "0.0") + term', "count": 2},
